@@ -147,6 +147,7 @@ SPEC = TreeSpec(
     ),
     profile=WIRE_CONFORMING,
     check=check,
+    size_sweep=True,
     nontrivial=nontrivial,
     sample_of=sample_of,
     assumptions=("canonical bytes come from kv.refcodec, not from kio",),
